@@ -336,8 +336,10 @@ class FreeEnergy(InterpolatableFunction):
         keepMaxFlag = self.maxPossibleTemperature[1] and TMax >= self.maxPossibleTemperature[0]
 
         # maximum temperature range
-        TMin = max(self.minPossibleTemperature[0], TMin)
-        TMax = min(self.maxPossibleTemperature[0], TMax)
+        # (never clamp past the starting temperature: the limits of an earlier trace are
+        # shortened by a safety margin and may exclude it)
+        TMin = min(max(self.minPossibleTemperature[0], TMin), T0)
+        TMax = max(min(self.maxPossibleTemperature[0], TMax), T0)
 
         # kwargs for scipy.integrate.solve_ivp
         scipyKwargs = {
